@@ -220,3 +220,34 @@ def install_pdo_bits(ctx, prefix="pdo_bits", judge=None):
 
     return [contracts.install(PdoVariable, "get_data", post_get, pre),
             contracts.install(PdoVariable, "set_data", post_set, pre)]
+
+
+def install_pdo_structure(ctx, prefix="pdo_structure"):
+    """Structural invariant of a PdoMap, evaluated whenever one of its (re)configuration methods returns *or raises*
+    (the "invariant at a hook" shape): the variables lie back to back from bit 0, ``length`` is their sum and the frame
+    buffer has ceil(length / 8) bytes.  A map that a failed read() or add_variable() leaves behind must still be one."""
+    from canopen.pdo.base import PdoMap
+
+    def post(self, args, kwargs, result, exc, old, name="?"):
+        ctx.count(prefix + ".evaluated")
+        total, problems = 0, []
+        for i, var in enumerate(self.map):
+            if var.offset != total:
+                problems.append(f"variable {i} at offset {var.offset}, expected {total}")
+                break
+            total += var.length
+        if not problems and self.length != total:
+            problems.append(f"length attribute {self.length}, variables sum to {total}")
+        # (an emptied map keeps the old buffer until the first variable is added again: clear() is the first half of a
+        # re-mapping, not judged)
+        if not problems and self.map and len(self.data) != (total + 7) // 8:
+            problems.append(f"{len(self.data)} data bytes for {total} mapped bits")
+        if problems:
+            ctx.violation(f"pdo-map-structure:after-{name}{':raised' if exc is not None else ''}",
+                          f"after {name}() {'raised ' + repr(exc) if exc is not None else 'returned'}: {problems[0]} "
+                          f"(map of {len(self.map)} variables)", {"method": name, "raised": repr(exc) if exc else None})
+
+    out = []
+    for name in ("read", "add_variable"):
+        out.append(contracts.install(PdoMap, name, lambda self, a, k, r, e, o, name=name: post(self, a, k, r, e, o, name)))
+    return out
